@@ -75,6 +75,8 @@ LEFT JOIN duckdb_columns ddb_columns
  AND ddb_columns.schema_name = columns.table_schema
  AND ddb_columns.table_name = columns.table_name
  AND ddb_columns.column_name = columns.column_name
+where columns.table_catalog = '${catalog}'
+  and not (columns.table_schema = 'information_schema' and columns.table_name like '_fs_%')
 """
 )
 
